@@ -365,7 +365,8 @@ fn words(thorough: bool) -> Vec<(u32, Kind, &'static str)> {
         for vbit in 0..2u32 {
             for opc in 0..4u32 {
                 for rn in [1u32, 31] {
-                    for rt in [0u32, 2, 31] {
+                    // rt == rn (1) exercises a load that overwrites its own base register
+                    for rt in [0u32, 1, 2, 31] {
                         let basew = (size << 30) | (0b111 << 27) | (vbit << 26) | (opc << 22) | (rn << 5) | rt;
                         for imm12 in [0u32, 1, 3] {
                             let n = if vbit == 1 { 1i64 << (size | ((opc >> 1) << 2)).min(4) } else { 1i64 << size };
@@ -405,7 +406,8 @@ fn words(thorough: bool) -> Vec<(u32, Kind, &'static str)> {
             for mode in 0..4u32 {
                 for l in 0..2u32 {
                     for imm7 in [0x40u32, 0x7f, 0, 1, 0x3f] {
-                        for (rt, rt2) in [(0u32, 1u32), (2, 31), (31, 0)] {
+                        // (3, 1) / (1, 3): the first / second transfer register is also the base (rn = 3)
+                        for (rt, rt2) in [(0u32, 1u32), (2, 31), (31, 0), (3, 1), (1, 3)] {
                             for rn in [3u32, 31] {
                                 let n: i64 = if vbit == 1 { 4 << opc } else if opc == 2 { 8 } else { 4 };
                                 let off = (if imm7 & 0x40 != 0 { imm7 as i64 - 128 } else { imm7 as i64 }) * n;
